@@ -1,5 +1,5 @@
 """Correspondence for the source-to-Lean translator (gen/py2lean.py) and its run-time library (lean/Asn1/PyLite.lean):
-the *translation* of a function (driver ops KTAG, KLEN, KTOBYTES, KOIDENC, KOIDDEC) and the function itself in /repo are
+the *translation* of a function (driver ops KTAG, KLEN, KTOBYTES, KOIDENC, KOIDDEC, KTIME, KREAL) and the function itself in /repo are
 run on the same arguments; the Python builtins PyLite transcribes (PYOP) are compared with CPython.
 
 A disagreement means the translator or PyLite misrepresents the code (machinery fault to repair) - it is reported as a
@@ -47,7 +47,7 @@ def _py(f, *a, **kw):
     return ('ok', r)
 
 
-def check(rep, drv, seed, n=400, which=('encodeTag', 'encodeLength', 'toBytes', 'oidEncode', 'oidDecode', 'timeCanon')):
+def check(rep, drv, seed, n=400, which=('encodeTag', 'encodeLength', 'toBytes', 'oidEncode', 'oidDecode', 'timeCanon', 'realBin')):
     """returns number of cases compared"""
     from pyasn1.codec.ber import encoder as benc, decoder as bdec
     from pyasn1.compat import integer
@@ -216,6 +216,27 @@ def check(rep, drv, seed, n=400, which=('encodeTag', 'encodeLength', 'toBytes', 
             except Exception as e:  # noqa
                 impl = ('err', type(e).__name__)
             cmp_('timeCanon', 'KTIME %d %d %s' % (ecls.MIN_LENGTH, ecls.MAX_LENGTH, ' '.join(str(ord(ch)) for ch in text)), impl)
+    if 'realBin' in which:
+        renc = benc.RealEncoder()
+        for i in range(n):
+            r = rng.random()
+            if r < 0.3:
+                m = rng.choice([1, 2, 3, 4, 5, 7, 8, 12, 16, 24, 32, 48, 96, 127, 128, 255, 256, 257, 1 << 52, (1 << 53) - 1])
+            else:
+                m = (rnd_nat() or 1) << rng.choice([0, 0, 1, 2, 3, 4, 5, 8, 12])
+            r = rng.random()
+            if r < 0.35:
+                e = rng.choice([0, -1, 1, -2, 127, 128, -128, -129, 255, 256, -256, -257, 32767, 32768, -32768, -32769,
+                                2 ** 23 - 1, 2 ** 23, -2 ** 23, -2 ** 23 - 1])
+            elif r < 0.9:
+                e = rng.randrange(-70000, 70000)
+            else:
+                e = rng.choice([1, -1]) * rng.getrandbits(rng.choice([30, 64, 2033, 2040, 2047, 2100]))
+            eb = rng.choice([2, 2, 8, 16])
+            ms = rng.choice([1, -1])
+            renc._chooseEncBase = lambda value, _r=(ms, m, eb, e): _r
+            impl = _py(lambda: list(renc.encodeValue(univ.Real((1, 2, 0)), None, None)[0]))
+            cmp_('realBin', 'KREAL %d %d %d %d' % (ms, m, eb, e), impl)
     rep.count('kernel_correspondence', done)
     return done
 
